@@ -15,8 +15,60 @@ FUZZED = ('C01', 'C06', 'C07', 'C08', 'C09', 'C15')
 CHECKS = {}
 
 
+# oracles added after the first registration (DESIGN.md 9.3)
+ADDED = {
+    'C01': ' Every public pot view (total_pot_amount, pot_amounts, pots)'
+           ' must agree; a quarter of the runs are observed ones (all public'
+           ' accessors read between operations).',
+    'C02': ' Each bet collection must return exactly the uncalled part of the'
+           ' largest bet (round bets rebuilt from the posting/betting'
+           ' records); half of the runs are observed ones; flat-drop rake'
+           ' callbacks.',
+    'C04': ' Every documented CardsLike spelling; hands padded with'
+           ' unknown-rank cards; a hand built from a list keeps its cards when'
+           ' the list is reused.',
+    'C05': ' Every documented CardsLike spelling for hole and board;'
+           ' constructed twin-suited Omaha holes.',
+    'C06': ' An engine-chosen deal touches the reserve piles only once the'
+           ' deck is exhausted; a board deal mixing known cards and'
+           ' placeholders is probed on a deep copy.',
+    'C08': ' Footprint of an explicit player index (state changes only at that'
+           ' index, the right player leaves the pending queue); duplicate'
+           ' cards and malformed card texts among the probed arguments.',
+    'C10': ' Boards are filled in order and are complete at every betting'
+           ' decision; named dealees honoured; full stud tables with unknown'
+           ' cards; custom streets prescribing hole and board cards.',
+    'C12': ' Showdowns in any player order, partial shows before the last'
+           ' street, voluntary face-down shows on a board that plays,'
+           ' half-known card probes; half of the runs are observed ones.',
+    'C13': ' Constructed stud hands in which the opener folds at once on a'
+           ' chosen street.',
+    'C14': ' Players who already chose or folded are probed by explicit'
+           ' index; raked pools.',
+    'C15': ' Exactness: after every operation the logged players, amounts'
+           ' and cards are compared with what moved; completeness: every'
+           ' operation returns the record it appended, commentary included;'
+           ' observation transparency: reading every public accessor between'
+           ' operations changes neither log nor outcome; determinism across'
+           ' interpreter processes (several PYTHONHASHSEED values).',
+    'C16': ' Generated edits of the action list are either reported or fully'
+           ' applied; multi-hand files (1-23 hands) through text and binary'
+           ' API; no user field may appear that was not given.',
+    'C17': ' Raked hands that record finishing stacks (Pluribus result = real'
+           ' payoffs).',
+    'C18': ' All six rank orders.',
+    'C19': ' Layouts through all twelve variants and both creation routes;'
+           ' hand-evaluating entry points across CardsLike spellings; unknown'
+           ' card objects; invalid layouts in bring-in games, with and'
+           ' without automation.',
+    'C20': ' Thousands separators, files with several hands, screen names'
+           ' containing action words.',
+}
+
+
 def reg(pid, technique, text, note, ref):
-    CHECKS[pid] = (technique, text, note, ref)
+    CHECKS[pid] = (technique, text + ADDED.get(pid, ''), note,
+                   ref + ', 9.3')
 
 
 reg('C01',
